@@ -297,7 +297,7 @@ func Exec(env *Env, st store.Store, o Op, ss *simnode.Session, hook ReaderHook) 
 		for ; err == nil && item.Selection != nil; item, err = item.Next() {
 			var ks []string
 			for _, k := range item.Key {
-				ks = append(ks, k.String())
+				ks = append(ks, mnode.FromVal(k)[0])
 			}
 			found[strings.Join(ks, "\x00")] = item.Selection
 		}
@@ -332,7 +332,7 @@ func Exec(env *Env, st store.Store, o Op, ss *simnode.Session, hook ReaderHook) 
 		for ; err == nil && item.Selection != nil; item, err = item.Next() {
 			var ks []string
 			for _, k := range item.Key {
-				ks = append(ks, k.String())
+				ks = append(ks, mnode.FromVal(k)[0])
 			}
 			res.Walk = append(res.Walk, ks)
 		}
@@ -350,7 +350,7 @@ func Exec(env *Env, st store.Store, o Op, ss *simnode.Session, hook ReaderHook) 
 		for ; err == nil && item.Selection != nil; item, err = item.Next() {
 			var ks []string
 			for _, k := range item.Key {
-				ks = append(ks, k.String())
+				ks = append(ks, mnode.FromVal(k)[0])
 			}
 			found[strings.Join(ks, "\x00")] = item.Selection
 		}
